@@ -114,7 +114,12 @@ func (f *frame) mergeStates(b *ssa.BasicBlock, ins []inEdge) *bstate {
 	for _, e := range ins {
 		conds = append(conds, e.cond)
 	}
-	st := &bstate{heap: map[string]string{}, ghost: map[string]TV{}}
+	st := &bstate{heap: map[string]string{}, ghost: map[string]TV{}, leaked: map[string]bool{}}
+	for _, e := range ins {
+		for k := range e.st.leaked {
+			st.leaked[k] = true
+		}
+	}
 	st.alive = vc.define(fmt.Sprintf("%sr%d", f.id, b.Index), "Bool", or(conds...))
 	// epoch
 	same := true
@@ -353,6 +358,20 @@ func (f *frame) loopHeader(b *ssa.BasicBlock, li *loopInfo, st *bstate, ins []in
 			}
 		}
 	}
+	// objects that may escape somewhere in the loop body count as escaped
+	// from the header on (an earlier iteration may have leaked them)
+	if top := f.topFrame(); top.escSites != nil {
+		for site, refs := range top.escSites {
+			if li.body[site.Block()] && site.Parent() == f.fn {
+				if st.leaked == nil {
+					st.leaked = map[string]bool{}
+				}
+				for _, rr := range refs {
+					st.leaked[rr] = true
+				}
+			}
+		}
+	}
 	// havoc
 	mods := f.loopModSet(li)
 	if mods.star {
@@ -412,7 +431,11 @@ func (f *frame) loopHeader(b *ssa.BasicBlock, li *loopInfo, st *bstate, ins []in
 		tv := f.havocValue(st, f.id+phi.Name()+"."+phi.Comment, phi.Type())
 		f.setVal(phi, tv)
 	}
+	ghostMods := f.loopGhostMods(li)
 	for g, tv := range st.ghost {
+		if !ghostMods[g] {
+			continue
+		}
 		tv.T = vc.fresh("ghost."+g, tv.S)
 		st.ghost[g] = tv
 	}
@@ -540,7 +563,7 @@ func (f *frame) havocAll(st *bstate, why string) {
 	var keeps []keep
 	for fr := f; fr != nil; fr = fr.caller {
 		for _, la := range fr.locals {
-			if la.escaped {
+			if !la.isPrivate(st) {
 				continue
 			}
 			for _, c := range f.objCells(la.ty, la.ref.T) {
@@ -679,4 +702,33 @@ func (f *frame) monotonePhis(b *ssa.BasicBlock, li *loopInfo, st *bstate, ins []
 		}
 		f.vc.note("auto-invariant: monotone loop counters are bounded by their initial value (syntactic induction)")
 	}
+}
+
+// loopGhostMods: ghosts assigned by a call-site annotation whose callee is
+// called somewhere in the loop body (ordinals ignored: a superset).
+func (f *frame) loopGhostMods(li *loopInfo) map[string]bool {
+	out := map[string]bool{}
+	if f.contract == nil || !f.top {
+		return out
+	}
+	for b := range li.body {
+		for _, in := range b.Instrs {
+			ci, ok := in.(ssa.CallInstruction)
+			if !ok {
+				continue
+			}
+			name := calleeName(ci.Common())
+			for _, cs := range f.contract.Callsites {
+				if matchCallee(cs.Callee, name) {
+					for _, ga := range cs.Before {
+						out[ga.Name] = true
+					}
+					for _, ga := range cs.After {
+						out[ga.Name] = true
+					}
+				}
+			}
+		}
+	}
+	return out
 }
